@@ -7,7 +7,7 @@ from streams import hb
 
 PID = "C15"
 LEVEL = "proof"
-LEAN_TARGETS = ["SyneTune.Props.C15"]
+LEAN_TARGETS = ["SyneTune.Props.C15", "SyneTune.Props.C15Sched"]
 DRIVER = "SyneTune/Drivers/Hb.lean"
 THEOREMS = [
     "SyneTune.C15.rung_add_symm",
@@ -22,6 +22,34 @@ THEOREMS = [
     "SyneTune.C15.rush_symm",
     "SyneTune.C15.cost_symm",
     "SyneTune.quantileAsc_neg_reverse",
+    # whole scheduler, all six types, both modes, every history (Props/C15Sched.lean)
+    "SyneTune.C15Sched.step_WF",
+    "SyneTune.C15Sched.run_WF",
+    "SyneTune.C15Sched.neg_WF",
+    "SyneTune.C15Sched.init_WF",
+    "SyneTune.C15Sched.suggest_symm",
+    "SyneTune.C15Sched.result_symm",
+    "SyneTune.C15Sched.remove_symm",
+    "SyneTune.C15Sched.error_symm",
+    "SyneTune.C15Sched.complete_symm",
+    "SyneTune.C15Sched.step_symm",
+    "SyneTune.C15Sched.run_symm",
+    "SyneTune.C15Sched.out_symm",
+    "SyneTune.C15Sched.call_symm",
+    "SyneTune.C15Sched.outs_symm",
+    "SyneTune.C15Sched.calls_symm",
+    "SyneTune.C15Sched.run_outs_symm",
+    "SyneTune.C15Sched.neg_involutive",
+    "SyneTune.C15Sched.neg_mode",
+    # rung systems / bracket manager (Lemmas/Symmetry2.lean)
+    "SyneTune.C15Sched.findPromotable_symm",
+    "SyneTune.C15Sched.promoSchedule_symm",
+    "SyneTune.C15Sched.rushStopReport_symm",
+    "SyneTune.C15Sched.softGroups_symm",
+    "SyneTune.C15Sched.pashaIncrease_symm",
+    "SyneTune.C15Sched.pashaReport_symm",
+    "SyneTune.C15Sched.taskReport_symm",
+    "SyneTune.C15Sched.taskSchedule_symm",
 ]
 TRUSTED = [
     "hand-written models lean/SyneTune/Model/{Rung,HB}.lean tied to /repo by the hb correspondence stream (both runs of every pair)",
